@@ -27,6 +27,15 @@ class RealEncoder(encoder.RealEncoder):
         m, b, e = value
         return self._dropFloatingPoint(m, b, e)
 
+    def _encodeDecimal(self, m, e):
+        # X.690 11.3.1: the NR3 form with a mantissa that is an integer
+        # without trailing zeros, followed by the decimal mark
+        while m and not m % 10:
+            m //= 10
+            e += 1
+
+        return str2octs('\x03%d.E%s%d' % (m, e == 0 and '+' or '', e))
+
 
 # specialized GeneralStringEncoder here
 
